@@ -180,7 +180,8 @@ def execute(aiu, events, cfg, script=None, *, form='class', tie=1, tail=None, fr
         def do_call(arg, key, phase, inst=0):
             rec = {'i': len(obs.calls), 'inst': inst, 't': world.now, 'arg': arg,
                    'key': key if key is not None else str(arg), 'explicit': key is not None,
-                   'done_t': None, 'out': None, 'cancel_t': None, 'phase': phase}
+                   'done_t': None, 'out': None, 'cancel_t': None, 'phase': phase, 'after': None}
+            rec['seq'] = holder['seq'] = holder.get('seq', 0) + 1
             obs.calls.append(rec)
             t = loop.create_task(caller(rec, arg, key))
 
@@ -192,6 +193,30 @@ def execute(aiu, events, cfg, script=None, *, form='class', tie=1, tail=None, fr
             tasks.append(t)
             return t
 
+        def do_chain(arg, n):
+            recs = []
+            for j in range(n):
+                rec = {'i': len(obs.calls), 'inst': 0, 't': None, 'arg': arg, 'key': str(arg), 'explicit': False,
+                       'done_t': None, 'out': None, 'cancel_t': None, 'phase': 'main',
+                       'after': recs[-1]['i'] if recs else None}
+                obs.calls.append(rec)
+                recs.append(rec)
+
+            async def chain():
+                for rec in recs:
+                    rec['t'] = world.now
+                    rec['seq'] = holder['seq'] = holder.get('seq', 0) + 1
+                    try:
+                        rec['out'] = ('ret', await b(arg))
+                    except asyncio.CancelledError:
+                        if holder.get('over'):
+                            return
+                        rec['out'] = ('cancelled',)
+                    except BaseException as e:    # noqa
+                        rec['out'] = ('exc', e)
+                    rec['done_t'] = world.now
+            tasks.append(loop.create_task(chain()))
+
         for gap, op in events:
             if gap:
                 await asyncio.sleep(gap)
@@ -201,6 +226,8 @@ def execute(aiu, events, cfg, script=None, *, form='class', tie=1, tail=None, fr
                 do_call(op[1], op[2], 'main')
             elif op[0] == 'calli':
                 do_call(op[1], None, 'main', op[2])
+            elif op[0] == 'chain':          # one task calling n times back-to-back, no suspension in between
+                do_chain(op[1], op[2])
             elif op[0] == 'cancel':
                 rec = obs.calls[op[1]]
                 if rec['done_t'] is None:
